@@ -41,8 +41,8 @@ def _wf(ks, docs) -> bool:
         if d and k in ("endfunction", "endmacro", "cpp_end_class", "cmake_parse_arguments", "endif"):
             return False
         if pending:
-            if k not in ("function", "macro") or d:
-                return False
+            if k not in ("function", "macro"):
+                return False          # (the implementing definition may carry a doccomment of its own)
             pending = False
             defs.append(k)
             continue
